@@ -191,6 +191,8 @@ def run(P, R, tier):
     R.floor("BRANCH/COPYBACK (GMM fit)", nb + ncb, 2)
     from ..engines import traps as _traps
     _traps.check(P, R, ['gmm'], scope='gmm:(e_step|m_step|ml_gmm_m_step|GMMMachine\\.fit|_\\w+)$')
+    from ..engines import proto as _pst
+    _pst.check_standins(P, R, 'gmm:GMMMachine.fit')
 
 
 EXPLANATION += " Also: (BRANCH / COPYBACK) both execution paths of fit run the same kernels with the same inputs and everything the M-step writes is stored back through the setters; (ARGROLE.mstep) the M-step function receives the machine's own switches, thresholds and the relevance-factor flag with the right polarity; (COVER.pairs)."
